@@ -3,7 +3,7 @@ NOTES = ("Contract-based deductive verification: Verus on functions extracted me
          "Kani/CBMC on the real crates (scratch copy + add-only cfg(kani) overlay). exit 2 = undecided (lost anchor, "
          "timeout, unsupported construct), never a VIOLATION. See DESIGN.md.")
 ENGINES = [
-    {"name": "E1-verus", "path": "engine/rsx.py, engine/verus.py, units/, contracts/", "serves_properties": ["C01", "C03", "C06", "C15", "C16", "C17"],
+    {"name": "E1-verus", "path": "engine/rsx.py, engine/verus.py, units/, contracts/", "serves_properties": ["C01", "C02", "C03", "C06", "C15", "C16", "C17"],
      "kind_free_text": "mechanical extraction + spec splicing -> single-file Verus (z3); unbounded proofs"},
     {"name": "E2-kani", "path": "engine/overlay.py, contracts/*/kani*.rs", "serves_properties": ["C02", "C03", "C06", "C07", "C11", "C14", "C15", "C19", "C20"],
      "kind_free_text": "cargo kani (CBMC) on a scratch copy of the real crates with an add-only cfg(kani) overlay"},
@@ -21,33 +21,33 @@ CHECKS = {
     "C06": {
         "engine": "E1-verus",
         "category": "proof",
-        "text": "Kernel-only: Verus proves (unbounded, all element types and callbacks) that the permutation kernel used by Hash N-Degree Quads terminates, only ever hands permutations of its input to the callback and leaves a permutation behind. The composition of the RDFC-1.0 algorithm is not decided by this check.",
+        "text": "Verus proves (unbounded, all element types and callbacks) that the permutation kernel used by Hash N-Degree Quads terminates, only ever hands permutations of its input to the callback and leaves a permutation behind; Kani shows it enumerates exactly n! distinct arrangements for n = 4, 5 (6 in the thorough tier). The composition of RDFC-1.0 (steps 2-6, the three hash procedures, the issuer, the sorted canonical N-Quads) is outside both verifiers and is compared, as a labelled bounded native stand-in, byte for byte with an independent transcription of the W3C algorithm on 68 872 small and symmetric datasets under SHA-256 and SHA-384.",
         "design_ref": "DESIGN.md 5 (C06)",
-        "note": "Trusted: Verus/z3, assumed spec of <[T]>::swap, vstd multiset lemmas. NOT covered: completeness (n! distinct arrangements), steps 3-5 of the canonicalisation algorithm, Hash N-Degree Quads, issuer, canonical N-Quads escaping.",
+        "note": "Trusted: Verus/z3, assumed spec of <[T]>::swap, vstd multiset lemmas. The reference transcription (replay_src/c06/src/oracle.rs) is trusted as a reading of the W3C text. NOT proved: steps 2-6 of the canonicalisation algorithm, Hash N-Degree Quads, issuer (bounded differential check only); NOT covered: canonical N-Quads escaping of literals, non-default limits, datasets beyond the enumerated shapes.",
         "technique": "deductive verification (Verus requires/ensures/decreases, loop invariant, FnMut call obligations) of mechanically extracted code",
     },
     "C16": {
         "engine": "E1-verus",
         "category": "proof",
-        "text": "For six anchored sites (the five matching iterators' next(), quoted_string) Verus accepts the real function text without a decreases clause on the function - its termination rule rejects any self-recursive exec function lacking one - and discharges the loops' decreases on the remaining input; so call depth does not depend on the number of rejected rows / escaped bytes. Other recursion sites named by the property are not covered.",
+        "text": "For six anchored sites (the five matching iterators' next(), quoted_string) Verus accepts the real function text without a decreases clause on the function - its termination rule rejects any self-recursive exec function lacking one - and discharges the loops' decreases on the remaining input; so call depth does not depend on the number of rejected rows / escaped bytes. The recursion sites neither verifier reaches (stream adapters, SPARQL executor incl. GRAPH ?g, JSON-LD engine; pretty Turtle/TriG in the thorough tier) are labelled bounded native stand-ins: the real code processes 100 000 - 200 000 flat items on a 2 MiB stack in a dev build.",
         "design_ref": "DESIGN.md 5 (C16)",
-        "note": "Call depth is the proxy for stack use (frame sizes are not measured). Trusted: Verus termination rule, U-ITER/U-ESC stand-ins. NOT covered: graph_rec (SPARQL), populate_list/mark_list_node (JSON-LD), Turtle pretty printer, parsers.",
+        "note": "Call depth is the proxy for stack use (frame sizes are not measured). Trusted: Verus termination rule, U-ITER/U-ESC stand-ins. NOT covered: parsers (dependencies), frame sizes, recursion with frames so small that N items fit in 2 MiB.",
         "technique": "deductive verification (Verus termination obligations: no recursion without decreases; loop decreases) of mechanically extracted code",
     },
     "C02": {
         "engine": "E2-kani",
         "category": "model_checking",
-        "text": "Bounded Kani harnesses on the real default Term::eq / Term::cmp / Term::hash, LanguageTag Eq/Ord/Hash and NsTerm::eq against the term's identity key (kind rank, strings, tag folded to lower case): eq is the key equality, cmp is the key order (blank < IRI < literal < variable), Equal exactly for equal terms, antisymmetric, transitive; equal terms feed identical bytes to any hasher; NsTerm's prefix+suffix comparison agrees with whole-IRI equality at every split point.",
+        "text": "Verus proves, for all well-formed terms of any nesting depth, that the default Term::eq (with Triple::eq / eq_spo through which it recurses; real function text, extracted each run) decides exactly the equality the property states (same kind, same IRI / label / name, same lexical form and datatype, language tags equal up to ASCII case, quoted triples component-wise), and that this relation is an equivalence. Bounded Kani harnesses on the real default Term::eq / Term::cmp / Term::hash, LanguageTag Eq/Ord/Hash and NsTerm::eq against the term's identity key (kind rank, strings, tag folded to lower case): eq is the key equality, cmp is the key order (blank < IRI < literal < variable), Equal exactly for equal terms, antisymmetric, transitive; equal terms feed identical bytes to any hasher; NsTerm's prefix+suffix comparison agrees with whole-IRI equality at every split point.",
         "design_ref": "DESIGN.md 5 (C02)",
-        "note": "Bounded: one-byte components over {a, b, B}, atoms only (no quoted triples). Trusted: Kani/CBMC, validator stubs. NOT covered: conversions (from_term / into_term ...), sophia_term / rio / jsonld / sparql term types, longer or non-ASCII strings.",
-        "technique": "Kani proof harnesses (contracts as assume/assert against a reference key function), bounded",
+        "note": "Proved part: Term::eq only (stand-in accessor contracts, LanguageTag == assumed ASCII-case-insensitive and checked bounded). Bounded: one-byte components over {a, b, B}, atoms only (no quoted triples) for cmp / hash. Trusted: Kani/CBMC, validator stubs. NOT covered: conversions (from_term / into_term ...), sophia_term / rio / jsonld / sparql term types, longer or non-ASCII strings.",
+        "technique": "deductive verification (Verus postcondition against a spec equality + equivalence lemmas) of mechanically extracted Term::eq; Kani proof harnesses (contracts as assume/assert against a reference key function), bounded, for cmp / hash / LanguageTag / NsTerm",
     },
     "C14": {
         "engine": "E2-kani",
         "category": "proof",
-        "text": "Kani decides, per kind triple over {NativeInt, Float, Double} and over the full machine domain of the operands (non-NaN, loop-free harnesses), whether the numeric comparison used by ORDER BY (PartialOrd for &SparqlNumber) is a total preorder. It is on the exact fragment (|int| <= 2^24) for every triple, and on the full domain for the 16 triples without lossy promotion; the 4 triples mixing integers with float AND double fail and are listed as known findings with concrete witnesses replayed through the SPARQL engine.",
+        "text": "Kani decides, per kind triple over {NativeInt, Float, Double} and over the full machine domain of the operands (non-NaN, loop-free harnesses), whether the numeric comparison used by ORDER BY (PartialOrd for &SparqlNumber) is a total preorder. It is on the exact fragment (|int| <= 2^24) for every triple, and on the full domain for the 16 triples without lossy promotion; the 4 triples mixing integers with float AND double fail and are listed as known findings with concrete witnesses replayed through the SPARQL engine. The ORDER BY comparator around that kernel (sparql_order_by, strings / booleans / dateTimes / big integers, class order, DESC, later keys) is outside both verifiers: a labelled bounded native stand-in checks it on a 40-value pool against an independent statement of '<'; three further known findings (cycles through NaN, an ill-typed literal, a timezone-less dateTime) are recorded with their witness triples.",
         "design_ref": "DESIGN.md 5 (C14), 8.3",
-        "note": "Trusted: Kani/CBMC IEEE-754 semantics. NOT covered: the 7 kind triples with two NativeInt operands (CBMC > 40 min: symbolic BigInt), NaN, BigInt/BigDecimal, strings/booleans/dateTimes, the Term::cmp fallback, cmp_bindings_with / sort_unstable_by.",
+        "note": "Trusted: Kani/CBMC IEEE-754 semantics. NOT covered: the 7 kind triples with two NativeInt operands (CBMC > 40 min: symbolic BigInt), symbolic BigInt/BigDecimal (one representative harness), NaN / ill-typed literals / timezone-less dateTimes beyond the recorded witnesses, values outside the stand-in's pool.",
         "technique": "Kani proof harnesses over full-domain symbolic operands, one per variant triple (complete for the fragment), known findings matched by replayed witness",
     },
     "C17": {
